@@ -118,7 +118,7 @@ def _reference(ops, ms, wire_order):
         elif op.name == "Snapshot":
             continue
         else:
-            ref_ops.append(op.map_wires(fmap) if fmap else op)
+            ref_ops.append(op.map_wires(fmap) if any(w in fmap for w in op.wires) else op)  # keep MCM object identity
     order = list(wire_order) + list(fmap.values())
     n = len(order)
     branches = R.run_branches(ref_ops, order)
@@ -196,8 +196,8 @@ def check(spec):
     for g, r, mp in zip(got, ref, ms):
         g = np.asarray(g)
         if type(mp).__name__ == "StateMP":
-            if g.shape != np.asarray(r).shape:
-                continue  # state on a different wire set (dynamic wires / device wires): not comparable here
+            if g.shape != np.asarray(r).shape or dev_wires is None:
+                continue  # without device wires the qubit order of the returned state is device-defined  # state on a different wire set (dynamic wires / device wires): not comparable here
             from mc import refsim as R
 
             if not R.close(g, r, 1e-8):
